@@ -370,11 +370,9 @@ func (c *control) dirMoney(colon, at bool, params []any) {
 func (c *control) dirPercent(colon, at bool, params []any) {
 	n := 1
 	if 0 < len(params) {
-		switch tp := params[0].(type) {
-		case int:
-			n = tp
-		case slip.Integer:
-			n = int(tp.RealValue())
+		switch params[0].(type) {
+		case int, slip.Integer:
+			n = c.getIntParam(0, params, n, false)
 		default:
 			c.invalidDirParam(c.str, c.pos)
 		}
@@ -387,11 +385,9 @@ func (c *control) dirPercent(colon, at bool, params []any) {
 func (c *control) dirAmp(colon, at bool, params []any) {
 	n := 1
 	if 0 < len(params) {
-		switch tp := params[0].(type) {
-		case int:
-			n = tp
-		case slip.Integer:
-			n = int(tp.RealValue())
+		switch params[0].(type) {
+		case int, slip.Integer:
+			n = c.getIntParam(0, params, n, false)
 		default:
 			c.invalidDirParam(c.str, c.pos)
 		}
@@ -1397,6 +1393,9 @@ func (c *control) dirT(colon, at bool, params []any) {
 		}
 	}
 	target -= from
+	if maxDirParam < target {
+		slip.ErrorPanic(c.scope, 0, "directive parameter is too large at %d of %q", c.pos, c.str)
+	}
 	for len(spaces) < target {
 		c.out = append(c.out, spaces...)
 		target -= len(spaces)
@@ -1430,11 +1429,9 @@ func (c *control) dirX(colon, at bool, params []any) {
 func (c *control) dirTilde(colon, at bool, params []any) {
 	n := 1
 	if 0 < len(params) {
-		switch tp := params[0].(type) {
-		case int:
-			n = tp
-		case slip.Integer:
-			n = int(tp.RealValue())
+		switch params[0].(type) {
+		case int, slip.Integer:
+			n = c.getIntParam(0, params, n, false)
 		default:
 			c.invalidDir(c.str, c.pos)
 		}
@@ -1585,7 +1582,7 @@ func (c *control) dirIter(colon, at bool, params []any) {
 		atLeastOnce = true
 	}
 	n := math.MaxInt
-	n = c.getIntParam(0, params, n, true)
+	n = c.intParam(0, params, n, true) // an iteration limit, not a size
 	switch {
 	case colon && at:
 		// The iteration consumes format arguments that must be lists.
@@ -1669,11 +1666,9 @@ func (c *control) dirIter(colon, at bool, params []any) {
 func (c *control) dirPage(colon, at bool, params []any) {
 	n := 1
 	if 0 < len(params) {
-		switch tp := params[0].(type) {
-		case int:
-			n = tp
-		case slip.Integer:
-			n = int(tp.RealValue())
+		switch params[0].(type) {
+		case int, slip.Integer:
+			n = c.getIntParam(0, params, n, false)
 		default:
 			c.invalidDir(c.str, c.pos)
 		}
@@ -1683,7 +1678,26 @@ func (c *control) dirPage(colon, at bool, params []any) {
 	}
 }
 
+// maxDirParam is the largest magnitude accepted for a numeric directive
+// parameter that sets a width, a number of digits, or a repeat count. The
+// output of format is a string and a string can not be longer than
+// array-dimension-limit.
+const maxDirParam = slip.ArrayMaxDimension
+
+// getIntParam returns the numeric directive parameter at pos or the default
+// value if there is none. The parameter must not exceed maxDirParam.
 func (c *control) getIntParam(pos int, params []any, defVal int, notNeg bool) int {
+	n := c.intParam(pos, params, defVal, notNeg)
+	if pos < len(params) && params[pos] != nil && (n < -maxDirParam || maxDirParam < n) {
+		slip.ErrorPanic(c.scope, 0, "directive parameter is too large at %d of %q", c.pos, c.str)
+	}
+	return n
+}
+
+// intParam returns the numeric directive parameter at pos or the default
+// value if there is none. An integer that does not fit in an int is
+// returned as the largest or smallest int.
+func (c *control) intParam(pos int, params []any, defVal int, notNeg bool) int {
 	if pos < len(params) {
 		switch tp := params[pos].(type) {
 		case nil:
@@ -1694,7 +1708,12 @@ func (c *control) getIntParam(pos int, params []any, defVal int, notNeg bool) in
 			}
 			return tp
 		case slip.Integer:
-			n := int(tp.RealValue())
+			n := int(tp.Int64())
+			if !tp.IsInt64() {
+				if n = math.MaxInt; tp.RealValue() < 0.0 {
+					n = math.MinInt
+				}
+			}
 			if notNeg && n < 0 {
 				slip.ErrorPanic(c.scope, 0, "directive parameter is negative at %d of %q", c.pos, c.str)
 			}
